@@ -450,7 +450,7 @@ func (s *Sentinel) Read(c cipher.Block, r io.Reader) error {
 	}
 	var (
 		k      = make([]byte, c.BlockSize())
-		n, err = r.Read(k)
+		n, err = io.ReadFull(r, k)
 	)
 	if err != nil {
 		return err
